@@ -1259,6 +1259,75 @@ fn memrace_case(rng: &mut Rng, out: &mut Out, dir: &str, idx: u64) {
     let _ = std::fs::remove_file(&path);
 }
 
+/// free-running reads of keys at the very moment the write-behind flush publishes them (stores the sector, drops the
+/// resident bytes): every value a reader gets must be one written for its key - the bytes say which key they belong to.
+/// Doubles as the AddressSanitizer workload for the record's value slot.
+fn readflush_case(rng: &mut Rng, out: &mut Out, dir: &str, idx: u64) {
+    use std::sync::atomic::{AtomicBool, AtomicU64, Ordering as O};
+    feoxdb::verif::clock::unpin();
+    let path = format!("{}/readflush{}.feox", dir, idx);
+    let _ = std::fs::remove_file(&path);
+    let cache = rng.chance(1, 3);
+    let store = match FeoxStore::builder().hash_bits(6).enable_ttl(false).no_memory_limit()
+        .device_path(path.clone()).file_size(16 << 20).enable_caching(cache).build() {
+        Ok(s) => Arc::new(s),
+        Err(_) => return,
+    };
+    out.count("read / flush case");
+    let nkeys = rng.range(4, 8) as usize;
+    let keys: Vec<Vec<u8>> = (0..nkeys).map(|i| format!("rf{}-{}", idx, i).into_bytes()).collect();
+    let sizes = [40usize, 300, 2000, 6000];
+    for (i, k) in keys.iter().enumerate() { let _ = store.insert(k, &pattern(0x30 + i as u8, sizes[i % 4])); }
+    let stop = Arc::new(AtomicBool::new(false));
+    let reads = Arc::new(AtomicU64::new(0));
+    let bad: Arc<Mutex<Vec<String>>> = Arc::new(Mutex::new(vec![]));
+    let readers: Vec<_> = (0..nkeys).map(|i| {
+        let (st, k, stop, reads, bad) = (store.clone(), keys[i].clone(), stop.clone(), reads.clone(), bad.clone());
+        let tag = 0x30 + i as u8;
+        std::thread::spawn(move || {
+            let mut n = 0u64;
+            while !stop.load(O::Relaxed) {
+                let got: Option<Vec<u8>> = match n % 3 {
+                    0 => st.get_bytes(&k).ok().map(|b| b.to_vec()),
+                    1 => st.get(&k).ok(),
+                    _ => st.range_query(&k, &k, 1).ok().and_then(|mut r| r.pop().map(|x| x.1)),
+                };
+                n += 1;
+                if let Some(v) = got {
+                    if v.is_empty() || v.iter().enumerate().any(|(j, b)| *b != tag ^ (j as u8).wrapping_mul(31)) {
+                        let mut g = bad.lock().unwrap();
+                        if g.len() < 2 { g.push(format!("a read of {} racing with the flush of that key returned {} bytes that are not a value written for it (first byte {:02x}, its values start with {:02x})", String::from_utf8_lossy(&k), v.len(), v.first().copied().unwrap_or(0), tag)); }
+                    }
+                }
+            }
+            reads.fetch_add(n, O::Relaxed);
+        })
+    }).collect();
+    let rounds = rng.range(200, 500);
+    let t0 = Instant::now();
+    for r in 0..rounds {
+        for (i, k) in keys.iter().enumerate() {
+            let len = sizes[(i + r as usize) % 4] + (r as usize % 17);
+            let _ = store.insert(k, &pattern(0x30 + i as u8, len));
+        }
+        let _ = store.flush();
+        // (several harness processes run side by side, each with its spinning readers: the case is bounded by time)
+        if t0.elapsed() > Duration::from_millis(600) { break; }
+    }
+    stop.store(true, O::Relaxed);
+    for h in readers { let _ = h.join(); }
+    *out.hist.entry("read / flush: racing reads".into()).or_insert(0) += reads.load(O::Relaxed);
+    for b in bad.lock().unwrap().iter() {
+        out.failures.push(format!("C20\tread / flush case {}: {}\t-", idx, b));
+        out.failures.push(format!("C08\tread / flush case {}: {}\t-", idx, b));
+    }
+    report_inv(out, &store, None, "after a read / flush case");
+    let st = store.clone();
+    drop(store);
+    let _ = with_watchdog(move || drop(st));
+    let _ = std::fs::remove_file(&path);
+}
+
 /// free-running: range scans and reads racing with every kind of update of the scanned keys
 /// (overwrite, CAS, increment-free: values are self-describing `<id>|<writer>|<round>|padding`),
 /// deletes and re-creations.  Every value a scan or a get returns must be one that was written
@@ -1771,6 +1840,9 @@ fn main() {
     }
     for i in 0..get("scanrace", 0) {
         scanrace_case(&mut rng, &mut out, &args.out, i);
+    }
+    for i in 0..get("readflush", 0) {
+        readflush_case(&mut rng, &mut out, &args.out, i);
     }
     for i in 0..get("memrace", 0) {
         memrace_case(&mut rng, &mut out, &args.out, i);
